@@ -8,17 +8,25 @@ REPS = ['repeat', 'repeatcount', 'repeatuntil', 'repeatcountuntil', 'intersperse
 
 def gen_rep(r, size):
     k = r.choice(REPS)
-    lo = r.below(4)
+    lo = r.below(5)
     hi = r.choice(['inf', 'inf', lo, lo + 1, lo + 2, 4])
+    if hi != 'inf' and hi > 4: hi = 4          # the property's bounds: 0 <= low <= high <= 4, or high unbounded
     if hi != 'inf' and hi < lo:
         hi = lo
     item = parsegen.gen_item(r, size)
-    sep = r.choice([['one', 'Comma'], ['one', 'Comma'], ['maybe', ['one', 'Comma']], ['seq', 'Comma', 'Comma'], 'empty', ['one', 'B']])
+    sep = r.choice([['one', 'Comma'], ['one', 'Comma'], ['maybe', ['one', 'Comma']], ['seq', 'Comma', 'Comma'], 'empty', ['one', 'B'],
+                    # separators from the wider C06 family: choice, sequence, nullable count, predicate, conditional forms
+                    ['either', ['one', 'Comma'], ['one', 'Semi']], ['both', ['one', 'Comma'], ['maybe', ['one', 'Comma']]], ['seqcount', 'Comma', 'Comma'],
+                    ['pred', ['is', 'Comma']], ['anyidx', 'Comma', 'Semi'], ['implies', ['one', 'Comma'], ['maybe', ['one', 'Semi']]],
+                    ['cond', 'T', ['one', 'Comma']], ['reqif', 'F', ['one', 'Comma']], ['discard', ['one', 'Comma']], ['one', 'A']])
     # stop parsers, including ones that overlap the item / separator grammar (the stop parser must be tried AT the item
     # boundary, before the separator: a stop that matches an item, or a separator followed by an item, tells the two apart)
     stop = r.choice([['one', 'C'], ['one', 'C'], ['any', 'C', 'Comma'], 'eot', ['seq', 'A', 'C'], ['both', ['one', 'Comma'], ['one', 'C']],
                      ['one', 'B'], ['one', 'A'], ['both', ['one', 'Comma'], ['one', 'B']], ['both', ['one', 'Comma'], ['one', 'A']],
-                     ['seq', 'Comma', 'A']])
+                     ['seq', 'Comma', 'A'],
+                     # stops from the wider family, nullable ones included (a nullable stop succeeds at once)
+                     ['pred', ['is', 'C']], ['either', ['one', 'C'], ['one', 'Semi']], ['center', ['maybe', ['one', 'Comma']], ['one', 'C'], 'empty'],
+                     ['maybe', ['one', 'C']], 'empty', ['seqcount', 'C'], ['cond', 'F', ['one', 'C']], ['anyidx', 'C', 'Semi']])
     if k in ('repeat', 'repeatcount'): return [k, lo, hi, item]
     if k in ('repeatuntil', 'repeatcountuntil'): return [k, lo, hi, stop, item]
     if k in ('intersperse', 'interspersecount'): return [k, lo, hi, item, sep]
